@@ -1,1 +1,8 @@
 import SoxrModel.Properties.C08
+#print axioms Soxr.Properties.C08.process_terminates_streaming
+#print axioms Soxr.Properties.C08.process_terminates_flushing
+#print axioms Soxr.Properties.C08.sum_replicate
+#print axioms Soxr.Properties.C08.drain_terminates
+#print axioms Soxr.Properties.C08.drained_stays_empty
+#print axioms Soxr.Properties.C08.latency_bounded
+#print axioms Soxr.Properties.C08.every_history_runs
